@@ -60,7 +60,7 @@ def check_state(st):
             s, e = nums
             if not (s <= e <= n):
                 out.append(f"selection {s}..{e} not inside the text ({n} characters)")
-            elif not (s <= cur <= e) and st["select_mode"].startswith("Char"):
+            elif not (s <= cur <= e) and st["select_mode"].startswith(("Char", "Line")):
                 out.append(f"cursor {cur} outside the selection {s}..{e}")
         else:
             for i in range(0, len(nums), 2):
@@ -100,6 +100,15 @@ def run(chk, binary):
         for km in (False, True):
             reqs.append({"op": "keys", "text": t, "cursor": 0, "keys": ks, "keep_mode": km})
             meta.append((t, ks, 0))
+    # a change made in an insert session, repeated with . somewhere else - on an empty line, on an emptied text, at the
+    # end of a line: the cursor . leaves is a normal-mode cursor again
+    for _ in range(600 if thorough else 80):
+        t = rng.choice(["abcdef\n\nlast\n", "\n", "a\n\n", "ab\n\n\ncd", "x\n\n", "é\n\nü\n", "one two\n\n  \nthree\n"])
+        sess = rng.choice(["Afoo<esc>", "ix<esc>", "a y<esc>", "ofoo<esc>", "Ofoo<esc>", "I-<esc>", "cwnew<esc>", "sX<esc>", "R12<esc>", "A<esc>", "i<CR><esc>", "3ia<esc>", "Aé<esc>"])
+        mover = rng.choice(["j", "jj", "k", "G", "gg", "}", "{", ":2<CR>", "ggdG", "Gdd", "$", "0", "jdd", "G$"])
+        ks = [sess, mover, rng.choice([".", ".", "2.", "."])] + rng.choice([[], ["."], ["x"], ["j", "."], ["u"]])
+        reqs.append({"op": "keys", "text": t, "cursor": 0, "keys": ks, "keep_mode": rng.random() < 0.3})
+        meta.append((t, ks, 0))
     # exhaustive small scope: depth-3 histories over a compact alphabet on seed buffers (thorough only)
     if thorough:
         alpha = ["x", "dw", "dd", "J", "p", "u", "o<esc>", "ix<esc>", "A<BS><esc>", "vld", "Vd", "j", "$", "w", "G", ":s/a/bb/<CR>", "rZ", "~", "gUw", "."]
@@ -120,7 +129,9 @@ def run(chk, binary):
         crlf = "\r" in text
         if crlf:
             dist["crlf"] += 1
-        for i, st in enumerate(steps):
+        # the state the text is loaded into counts as well: nothing has been typed, the tables must already be those of the text
+        states = ([(-1, a["init"])] if isinstance(a.get("init"), dict) and "buf" in a["init"] and start == 0 else []) + list(enumerate(steps))
+        for i, st in states:
             if "panic" in st or "buf" not in st:
                 dist["panic_histories"] += 1
                 break
@@ -128,7 +139,9 @@ def run(chk, binary):
             dist["modes"][st["mode"]] = dist["modes"].get(st["mode"], 0) + 1
             bad = check_state(st)
             if bad:
-                if crlf:
+                # (what the character tables say is not a matter of how lines are told apart: no CRLF allowance for that)
+                seg = [b_ for b_ in bad if b_.startswith(("cursor.max=", "the cached character offsets"))]
+                if crlf and not seg:
                     chk.known("CRLF", "a \\r\\n pair is one character but a line break only by its \\n: " + bad[0])
                     break
                 chk.violation("spec:position invariant broken between two commands",
